@@ -43,7 +43,7 @@ func init() {
 		},
 		NumCases: func(tier, variant string) int {
 			if tier == "thorough" {
-				return 20000
+				return 12000
 			}
 			return 600
 		},
